@@ -61,6 +61,22 @@ def split_tv(a):
 class Types:
     def __init__(self):
         self.named = {}
+        self.aggs = {}   # literal struct type text -> (c name, [field types])
+
+    def agg(self, t):
+        t = t.strip()
+        if t not in self.aggs:
+            inner = t[1:-1].strip()
+            fields = split_top(inner) if inner else []
+            self.aggs[t] = ('struct agg_%d' % len(self.aggs), fields)
+        return self.aggs[t]
+
+    def agg_decls(self):
+        out = []
+        for t, (nm, fields) in self.aggs.items():
+            body = ' '.join('%s f%d;' % (self.ctype(f), i) for i, f in enumerate(fields)) or 'char dummy;'
+            out.append('%s { %s };' % (nm, body))
+        return out
 
     def norm(self, t):
         return t.strip()
@@ -144,7 +160,7 @@ class Types:
         if t == 'void':
             return 'void'
         if t.startswith('{'):
-            return 'struct lpad'
+            return self.agg(t)[0]
         raise Err('ctype of ' + t)
 
     def bits(self, t):
@@ -252,11 +268,21 @@ class Translator:
                 return '((char *)%s)' % fname(v)
             return '((char *)%s)' % cname(v)
         if v in ('null', 'undef', 'poison', 'zeroinitializer'):
+            if ty.strip().startswith('{'):
+                return '(%s){0}' % self.T.ctype(ty)
             return '0'
         if v == 'true':
             return '1'
         if v == 'false':
             return '0'
+        if v.startswith('{') and ty.strip().startswith('{'):
+            nm, fields = self.T.agg(ty)
+            parts = split_top(v[1:-1])
+            vals = []
+            for p_ in parts:
+                ft, fv = split_tv(p_)
+                vals.append(self.const_or_val(ft, fv))
+            return '(%s){ %s }' % (nm, ', '.join(vals))
         if re.fullmatch(r'-?\d+', v):
             b = self.T.bits(ty) or 64
             iv = int(v)
@@ -341,7 +367,13 @@ class Translator:
                 m = re.match(r'(%[^ ]+) = phi (.*?) (\[.*)$', s)
                 if m:
                     var, ty, rest = m.group(1), m.group(2), m.group(3)
-                    inc = re.findall(r'\[ (.*?), (%[^ \]]+) \]', rest)
+                    inc = []
+                    for part in split_top(rest):
+                        part = part.strip()
+                        if part.startswith('[') and part.endswith(']'):
+                            inner = part[1:-1].strip()
+                            k = inner.rfind(',')
+                            inc.append((inner[:k].strip(), inner[k + 1:].strip()))
                     phis.setdefault(lab, []).append((var, ty, inc))
                     decls[cname(var)] = T.ctype(ty)
                     decls[cname(var) + '_phi'] = T.ctype(ty)
@@ -359,7 +391,7 @@ class Translator:
             s.append('goto %s;' % lab_c(to))
             return ' '.join(s)
 
-        zero_ret = '' if cret == 'void' else (' 0' if cret != 'struct lpad' else ' (struct lpad){0,0}')
+        zero_ret = '' if cret == 'void' else (' 0' if not cret.startswith('struct ') else ' (%s){0}' % cret)
         for lab, ins in blocks:
             code.append('%s: ;' % lab_c(lab))
             for var, ty, inc in phis.get(lab, []):
@@ -524,19 +556,20 @@ class Translator:
         if op == 'resume':
             return 'return%s;' % zero_ret
         if op == 'landingpad':
-            decls[cname(dst)] = 'struct lpad'
-            return '%s = (struct lpad){0, 0}; g_exc = 0; /* caught here */' % cname(dst)
+            mm = re.match(r'landingpad (\{.*?\})', rhs)
+            ty = mm.group(1)
+            decls[cname(dst)] = T.ctype(ty)
+            return '%s = (%s){0, 1}; g_exc = 0; /* caught here; selector 1 = the only exception type of the unit */' % (cname(dst), T.ctype(ty))
         if op == 'extractvalue':
-            mm = re.match(r'extractvalue \{ i8\*, i32 \} (\S+), (\d)$', rhs)
-            if mm:
-                ty = 'i8*' if mm.group(2) == '0' else 'i32'
-                return setv(ty, '%s.%s' % (cname(mm.group(1)), 'p' if mm.group(2) == '0' else 'sel'))
-            raise Err('extractvalue ' + rhs)
+            mm = re.match(r'extractvalue (\{.*\}) (\S+), (\d+)$', rhs)
+            ty, src, idx = mm.group(1), mm.group(2), int(mm.group(3))
+            nm, fields = T.agg(ty)
+            return setv(fields[idx], '%s.f%d' % (self.const_or_val(ty, src), idx))
         if op == 'insertvalue':
-            mm = re.match(r'insertvalue \{ i8\*, i32 \} (\S+), (.*?) (\S+), (\d)$', rhs)
-            decls[cname(dst)] = 'struct lpad'
-            base = '(struct lpad){0,0}' if mm.group(1) in ('undef', 'poison') else cname(mm.group(1))
-            return '%s = %s; %s.%s = %s;' % (cname(dst), base, cname(dst), 'p' if mm.group(4) == '0' else 'sel', self.const_or_val(mm.group(2), mm.group(3)))
+            mm = re.match(r'insertvalue (\{.*?\}) (\S+), (.*) (\S+), (\d+)$', rhs)
+            ty, src, fty, val, idx = mm.group(1), mm.group(2), mm.group(3), mm.group(4), int(mm.group(5))
+            decls[cname(dst)] = T.ctype(ty)
+            return '%s = %s; %s.f%d = %s;' % (cname(dst), self.const_or_val(ty, src), cname(dst), idx, self.const_or_val(fty, val))
         if op in ('call', 'invoke', 'tail', 'musttail', 'notail'):
             return self.call(dst, rhs, lab, decls, goto, zero_ret)
         if op == 'freeze':
@@ -568,8 +601,12 @@ class Translator:
             normal, unwind = m2.group(1), m2.group(2)
         name = callee
         stmt = None
-        if name.startswith('@llvm.lifetime') or name.startswith('@llvm.dbg') or name.startswith('@llvm.assume') or name.startswith('@llvm.experimental.noalias'):
+        if name.startswith('@llvm.lifetime') or name.startswith('@llvm.dbg') or name.startswith('@llvm.assume') or name.startswith('@llvm.experimental.noalias') \
+                or name.startswith('@llvm.invariant'):
             stmt = ';'
+        elif name.startswith('@llvm.eh.typeid.for'):
+            decls[cname(dst)] = 'int32_t'
+            stmt = '%s = 1;' % cname(dst)
         elif name.startswith('@llvm.abs.'):
             ct = T.ctype(rett)
             stmt = '%s = ((%s)%s < 0) ? (%s)(-(%s)%s) : (%s)%s;' % (cname(dst), ct, cargs[0], ct, ct, cargs[0], ct, cargs[0])
@@ -626,7 +663,7 @@ class Translator:
                     if ref in self.defined and ref not in done and ref not in todo:
                         todo.append(ref)
         hdr = ['/* generated by ir2c.py — do not edit */', '#include <stdint.h>', '#include <stddef.h>',
-               'struct lpad { char *p; int32_t sel; };', 'extern int g_exc;', 'void __CPROVER_assume(_Bool);',
+               'extern int g_exc;', 'void __CPROVER_assume(_Bool);',
                'void ir2c_memcpy(char *d, char *s, int64_t n); void ir2c_memset(char *d, int8_t v, int64_t n);',
                'double ir2c_hexdouble(uint64_t bits);']
         # globals that are referenced
@@ -636,7 +673,16 @@ class Translator:
                 m = re.search(r'(?:constant|global) (\[\d+ x i8\]) c"(.*)"', defn)
                 if m:
                     n = int(re.match(r'\[(\d+)', m.group(1)).group(1))
-                    hdr.append('char %s[%d];' % (cname(g), n))
+                    raw = m.group(2)
+                    bs, k = [], 0
+                    while k < len(raw):
+                        if raw[k] == '\\' and k + 2 < len(raw) + 1 and re.match(r'[0-9A-Fa-f]{2}', raw[k + 1:k + 3]):
+                            bs.append(int(raw[k + 1:k + 3], 16))
+                            k += 3
+                        else:
+                            bs.append(ord(raw[k]))
+                            k += 1
+                    hdr.append('char %s[%d] = {%s};' % (cname(g), n, ','.join(str(b if b < 128 else b - 256) for b in bs[:n])))
                     continue
                 m = re.search(r'(?:constant|global) (.*?)( zeroinitializer| undef|, align| \{)', defn + ' ')
                 try:
@@ -656,14 +702,17 @@ class Translator:
                 ps = []
                 for p in split_top(m.group(3)):
                     p = strip_attrs(p)
-                    if p == '...' or not p:
+                    if not p:
+                        continue
+                    if p == '...':
+                        ps.append('...')
                         continue
                     ps.append(self.T.ctype(p))
                 protos.append('%s %s(%s); /* external: needs a model */' % (self.T.ctype(rett), fname(ext), ', '.join(ps) or 'void'))
         body = []
         for _, b in bodies:
             body += b
-        return '\n'.join(hdr + protos + body) + '\n'
+        return '\n'.join(hdr + self.T.agg_decls() + protos + body) + '\n'
 
 
 def main():
